@@ -1,6 +1,9 @@
 package ops
 
 import (
+	"slices"
+	"sort"
+
 	"gorgonia.org/tensor"
 )
 
@@ -216,6 +219,58 @@ func NElements(shp ...int) int {
 	}
 
 	return nElem
+}
+
+// ReduceAxes reduces t along the given axes with reduce, a reduction of the tensor library such as
+// (*tensor.Dense).Max. Without axes all axes are reduced. The tensor library only reduces the first, the
+// second and the last axis of a tensor correctly (for the axes in between it ignores the strides of the
+// axes in front of them), hence every axis is reduced on a view of shape (outer, extent, inner), from the
+// last requested axis to the first.
+func ReduceAxes(
+	t *tensor.Dense, axes []int, reduce func(*tensor.Dense, ...int) (*tensor.Dense, error),
+) (*tensor.Dense, error) {
+	shape := t.Shape().Clone()
+
+	sorted := make([]int, 0, len(axes))
+	for _, axis := range axes {
+		if axis < 0 || axis >= len(shape) {
+			return nil, ErrAxisOutOfRange(len(shape), len(shape), axis)
+		}
+
+		if !slices.Contains(sorted, axis) {
+			sorted = append(sorted, axis)
+		}
+	}
+
+	// When all axes go the result is a scalar, as it is when no axes are given.
+	if len(sorted) == 0 || len(sorted) == len(shape) {
+		return reduce(t)
+	}
+
+	sort.Sort(sort.Reverse(sort.IntSlice(sorted)))
+
+	// The views are taken on a tensor of our own over the same data, t keeps its shape.
+	out := tensor.New(tensor.WithBacking(t.Data()), tensor.WithShape(shape...))
+
+	for _, axis := range sorted {
+		err := out.Reshape(NElements(shape[:axis]...), shape[axis], NElements(shape[axis+1:]...))
+		if err != nil {
+			return nil, err
+		}
+
+		out, err = reduce(out, 1)
+		if err != nil {
+			return nil, err
+		}
+
+		shape = append(shape[:axis], shape[axis+1:]...)
+	}
+
+	if err := out.Reshape(shape...); err != nil {
+		return nil, err
+	}
+
+	return out, nil
 }
 
 // PairwiseAssign essentially does pairwise t1 = t2 in place!.
